@@ -34,7 +34,13 @@ def add_nfn(evs):
     """nfn: function containing the next scheduling point of the same thread"""
     nxt = {}
     for e in reversed(evs):
-        if e.get("k") in STEP_KINDS:
+        if e.get("k") == "sys":
+            # a logged system call of the io shim pins the position too (pseudo function sys_<op>)
+            e["nfn"] = ""
+            e.setdefault("fds", [])
+            e.setdefault("evs", [])
+            nxt[e["t"]] = "sys_" + e.get("op", "")
+        elif e.get("k") in STEP_KINDS:
             e["nfn"] = nxt.get(e["t"], "")
             fn = e.get("fn", "")
             if e["k"] in ("cont", "reg"):
